@@ -1,5 +1,5 @@
-use super::Ctx;
 use super::{transformation::parse_meta_var, TransformError};
+use super::{Applying, Ctx};
 use crate::rule_core::RuleCore;
 
 use ast_grep_core::meta_var::MetaVariable;
@@ -44,6 +44,13 @@ impl Rewrite<String> {
 
 impl Rewrite<MetaVariable> {
   pub(super) fn compute<D: Doc>(&self, ctx: &mut Ctx<D>) -> Option<String> {
+    self.compute_in(ctx, None)
+  }
+  pub(super) fn compute_in<D: Doc>(
+    &self,
+    ctx: &mut Ctx<D>,
+    applying: Option<&Applying>,
+  ) -> Option<String> {
     let var = &self.source;
     let nodes = get_nodes_from_env(var, ctx);
     if nodes.is_empty() {
@@ -57,7 +64,7 @@ impl Rewrite<MetaVariable> {
       .iter()
       .filter_map(|id| rewriters.get(id)) // NOTE: rewriter must be defined
       .collect();
-    let edits = find_and_make_edits(nodes, &rules, ctx);
+    let edits = find_and_make_edits(nodes, &rules, ctx, applying);
     let rewritten = if let Some(joiner) = &self.join_by {
       let mut ret = vec![];
       let edits = edits.into_iter();
@@ -93,10 +100,11 @@ fn find_and_make_edits<'n, D: Doc>(
   nodes: Vec<Node<'n, D>>,
   rules: &[&RuleCore<D::Lang>],
   ctx: &Ctx<'_, 'n, D>,
+  applying: Option<&Applying>,
 ) -> Vec<Edit<D::Source>> {
   nodes
     .into_iter()
-    .flat_map(|n| replace_one(n, rules, ctx))
+    .flat_map(|n| replace_one(n, rules, ctx, applying))
     .collect()
 }
 
@@ -104,10 +112,17 @@ fn replace_one<'n, D: Doc>(
   node: Node<'n, D>,
   rules: &[&RuleCore<D::Lang>],
   ctx: &Ctx<'_, 'n, D>,
+  applying: Option<&Applying>,
 ) -> Vec<Edit<D::Source>> {
   let mut edits = vec![];
   for child in node.dfs() {
     for rule in rules {
+      // a recursive rewriter can reach the node it is applied to again, e.g. if it
+      // rewrites the node it matched or an ancestor. It would never end, see `Applying`.
+      if applying.is_some_and(|a| !a.allows(rule, &child)) {
+        continue;
+      }
+      let applying = Applying::new(rule, &child, applying);
       let mut env = std::borrow::Cow::Borrowed(ctx.enclosing_env);
       // NOTE: we inherit meta_var_env from enclosing rule
       // but match env will NOT inherited recursively!
@@ -115,7 +130,12 @@ fn replace_one<'n, D: Doc>(
       // $C is matched in rewriter but is NOT inherited in recursive rewriter
       // this is to enable recursive rewriter to match sub nodes
       // in future, we can use the explict `expose` to control env inheritance
-      if let Some(n) = rule.do_match(child.clone(), &mut env, Some(ctx.enclosing_env)) {
+      if let Some(n) = rule.do_match(
+        child.clone(),
+        &mut env,
+        Some(ctx.enclosing_env),
+        Some(&applying),
+      ) {
         let nm = NodeMatch::new(n, env.into_owned());
         edits.push(nm.make_edit(rule, rule.fixer.as_ref().expect("rewriter must have fix")));
         // stop at first fix, skip duplicate fix
